@@ -7,8 +7,8 @@ from . import base
 ID = 'C06'
 LEVEL = 'exploration'
 PLAN = {
-    'quick': [('synth', 20000), ('resume', 4000), ('tracker', 160000), ('small_enum', smallenum.size(2) + 24000), ('shipped', 480), ('shipped_cli', 160)],
-    'thorough': [('synth', 800000), ('resume', 150000), ('tracker', 8000000), ('small_enum', smallenum.size(3)), ('shipped', 20000), ('shipped_cli', 6000)],
+    'quick': [('synth', 20000), ('resume', 4000), ('tracker', 160000), ('small_enum', smallenum.size(2) + 24000), ('synth_cli_eof', 3000), ('shipped', 480), ('shipped_cli', 160)],
+    'thorough': [('synth', 800000), ('resume', 150000), ('tracker', 8000000), ('small_enum', smallenum.size(3)), ('synth_cli_eof', 100000), ('shipped', 20000), ('shipped_cli', 6000)],
 }
 DEADLINE = {'quick': 200, 'thorough': 3300}
 PROBES = ['line-reattempted', 'refusal-with-waiters-outstanding', 'tracker-interleaved-drain',
@@ -138,7 +138,29 @@ def eval_tracker(hist, acc=None):
     return [simrun.F(ID, o, k, m) for o, k, m in finds]
 
 
+def eval_cli_eof(case, acc=None):
+    """interactive session through habutax.main() in which input ends (EOF) at question k: must terminate"""
+    if acc is not None and _TERM[0] >= 2:
+        acc.count('skipped-after-nontermination')
+        return []
+    try:
+        run = simrun.execute_cli(case, {'prompt': True, 'writeback': False, 'solution': False,
+                                        'interrupt': [case['eof_at'], case.get('eof_kind', 'eof')]})
+    except (core.RunTimeout, core.BudgetExceeded) as e:
+        _TERM[0] += 1
+        return [simrun.F(ID, 'C06.term', 'no-termination', f'session with end of input at question {case["eof_at"]} did not finish: {type(e).__name__} {e}')]
+    if acc is not None:
+        acc.steps += run.rec.attempts + run.rec.prompts
+        acc.count(f'outcome:cli-eof-{run.outcome}')
+        if any(w == 'eof' for _, _, w in run.stdin_log):
+            acc.count('fault:eof@k')
+            acc.add('nontrivial', core.digest_int(['eof', case['world'], case['eof_at']]))
+    return [simrun.F(ID, c, c, m_) for c, m_ in run.monitor.violations if c in ORACLES]
+
+
 def evaluate(case, engine, acc=None):
+    if engine == 'synth_cli_eof':
+        return eval_cli_eof(case, acc)
     if engine == 'small_enum':
         fs = eval_synth(case, acc)
         if acc is not None:
@@ -166,6 +188,15 @@ def make_case(engine, seed):
     if engine == 'tracker':
         rng = core.Rng(seed)
         return trackersim.gen_history(rng, 'protocol' if rng.chance(0.5) else 'free')
+    if engine == 'synth_cli_eof':
+        rng = core.Rng(core.h64('clieof', seed))
+        case = gen.gen_case(seed, clean=rng.chance(0.6))
+        case['prompt'] = True
+        case['refuse_at'] = None
+        case['file'] = [n for n in case['file'] if rng.chance(0.3) or case['persona'][n]['invalid'] or '\n' in case['persona'][n]['text']]
+        case['eof_at'] = rng.pick([0, 0, 1, 2, 3, 5])
+        case['eof_kind'] = rng.pick(['eof', 'eof', 'eof_retry'])
+        return case
     if engine == 'resume':
         rng = core.Rng(core.h64('resume', seed))
         case = gen.gen_case(seed, force_faults=rng.pick([['refuse'], ['refuse', 'missing'], ['refuse', 'notimpl'],
